@@ -110,7 +110,82 @@ func bracketLocks(list []ast.Stmt) []ast.Stmt {
 	return out
 }
 
+// syncCallNames are method / function names that (in a file importing sync or
+// sync/atomic) mark a statement as synchronisation-adjacent.
+var syncCallNames = map[string]bool{"Load": true, "Store": true, "Swap": true, "CompareAndSwap": true, "Add": true,
+	"Lock": true, "Unlock": true, "RLock": true, "RUnlock": true, "Get": true, "Put": true, "Do": true,
+	"LoadOrStore": true, "LoadAndDelete": true, "Delete": true, "Range": true}
+
+func touchesSync(st ast.Stmt) bool {
+	found := false
+	ast.Inspect(st, func(n ast.Node) bool {
+		if _, ok := n.(*ast.FuncLit); ok {
+			return false
+		}
+		if c, ok := n.(*ast.CallExpr); ok {
+			if sel, ok := c.Fun.(*ast.SelectorExpr); ok {
+				if id, ok := sel.X.(*ast.Ident); ok && id.Name == "atomic" {
+					found = true
+				}
+				if syncCallNames[sel.Sel.Name] || strings.HasPrefix(sel.Sel.Name, "CompareAndSwap") {
+					found = true
+				}
+			}
+		}
+		return !found
+	})
+	return found
+}
+
+// stmtYields inserts a yield before every statement of a list (so that any
+// two adjacent statements can be separated by a context switch), and marks
+// the yields around statements that touch sync / sync/atomic as kind "sync".
+func stmtYields(list []ast.Stmt, addSite func(token.Pos, string) int, usesSync bool) []ast.Stmt {
+	out := make([]ast.Stmt, 0, 2*len(list)+1)
+	for _, st := range list {
+		if es, ok := st.(*ast.ExprStmt); ok {
+			if c, ok := es.X.(*ast.CallExpr); ok {
+				if sel, ok := c.Fun.(*ast.SelectorExpr); ok {
+					if id, ok := sel.X.(*ast.Ident); ok && id.Name == "verifhook" {
+						out = append(out, st) // our own instrumentation
+						continue
+					}
+				}
+			}
+		}
+		switch st.(type) {
+		case *ast.CaseClause, *ast.CommClause:
+			out = append(out, st) // the body of a switch is a list of clauses, not statements
+			continue
+		}
+		if !st.Pos().IsValid() {
+			out = append(out, st)
+			continue
+		}
+		kind := "stmt"
+		sy := usesSync && touchesSync(st)
+		if sy {
+			kind = "sync"
+		}
+		out = append(out, yieldStmt(addSite(st.Pos(), kind)), st)
+		if sy {
+			switch st.(type) {
+			case *ast.ReturnStmt, *ast.BranchStmt:
+			default:
+				out = append(out, yieldStmt(addSite(st.Pos(), "sync")))
+			}
+		}
+	}
+	return out
+}
+
 func instrumentFile(fset *token.FileSet, rel string, f *ast.File) {
+	usesSync := false
+	for _, im := range f.Imports {
+		if p := strings.Trim(im.Path.Value, `"`); p == "sync" || p == "sync/atomic" {
+			usesSync = true
+		}
+	}
 	curFunc := "init"
 	addSite := func(pos token.Pos, kind string) int {
 		id := len(sites)
@@ -166,9 +241,9 @@ func instrumentFile(fset *token.FileSet, rel string, f *ast.File) {
 			x.Body.List = append([]ast.Stmt{yieldStmt(id)}, x.Body.List...)
 			return false
 		case *ast.BlockStmt:
-			x.List = bracketLocks(x.List)
+			x.List = stmtYields(bracketLocks(x.List), addSite, usesSync)
 		case *ast.CaseClause:
-			x.Body = bracketLocks(x.Body)
+			x.Body = stmtYields(bracketLocks(x.Body), addSite, usesSync)
 		case *ast.GoStmt:
 			cen.Unsupported = append(cen.Unsupported, fmt.Sprintf("%s:%d go statement", rel, fset.Position(x.Pos()).Line))
 		case *ast.SelectStmt:
